@@ -192,7 +192,7 @@ def gen_spec(rng):
     # wrapping text in the non-grouping, non-key columns
     disp = E.displayed_columns(spec["df"], body)
     total = page.get("col_width", 6.25)
-    w = body.get("col_rel_width") or [1] * nc
+    w = E.rel_widths(spec["df"], body)
     dw = [w[j] for j in disp]
     colw = {j: total * w[j] / sum(dw) for j in disp}
     grouping = set(body.get("page_by") or []) | set(body.get("subline_by") or [])
@@ -276,7 +276,7 @@ def check_spec(ctx, spec, hook):
     disp = E.displayed_columns(spec["df"], body)
     nc = len(spec["df"]["cols"])
     total = page.get("col_width", 6.25)
-    w = body.get("col_rel_width") or [1] * nc
+    w = E.rel_widths(spec["df"], body)
     colw = {j: total * w[j] / sum(w[k] for k in disp) for j in disp}
     hdr = spec.get("colheader", "default")
     levels = len(body.get("page_by") or [])
